@@ -41,6 +41,11 @@ type write struct {
 	md5   string
 	ctype string
 	crc   string // base64 CRC32 of the body, sent as x-amz-checksum-crc32 and read back with x-amz-checksum-mode
+	// twins: a write may carry the very body of an earlier write (rep = id of the first write with that body; own id
+	// otherwise) - body, ETag and checksum then name the body, metadata and content type still name the write
+	rep   int
+	extra string // X-Amz-Meta-Extra of this write ("" = the write carries no such entry)
+	cc    string // Cache-Control of this write ("" = none)
 }
 
 type writes struct {
@@ -74,7 +79,8 @@ func (ws *writes) mk(big bool) *write {
 	// make the id readable in the body too
 	copy(b, []byte(fmt.Sprintf("w%d|", id)))
 	s := md5.Sum(b)
-	w := &write{id: id, body: b, md5: hex.EncodeToString(s[:]), ctype: fmt.Sprintf("application/x-w-%d", id), crc: s3c.Checksum("crc32", b)}
+	w := &write{id: id, rep: id, body: b, md5: hex.EncodeToString(s[:]), ctype: fmt.Sprintf("application/x-w-%d", id), crc: s3c.Checksum("crc32", b)}
+	w.optional()
 	ws.mu.Lock()
 	ws.byMD5[w.md5] = w
 	ws.byID[id] = w
@@ -83,8 +89,38 @@ func (ws *writes) mk(big bool) *write {
 	return w
 }
 
+// mkTwin creates a write with the body of an earlier one and its own identity; which optional attributes it carries
+// is decided by its id (a write that follows one with more attributes must not inherit them).
+func (ws *writes) mkTwin(of *write) *write {
+	ws.mu.Lock()
+	ws.next++
+	id := ws.next
+	w := &write{id: id, rep: of.rep, body: of.body, md5: of.md5, crc: of.crc, ctype: fmt.Sprintf("application/x-w-%d", id)}
+	ws.byID[id] = w
+	ws.mu.Unlock()
+	w.optional()
+	return w
+}
+
+// optional gives a write its id-determined optional attributes (twins, and originals that twins may follow)
+func (w *write) optional() {
+	if w.id%3 != 0 {
+		w.extra = fmt.Sprintf("extra-of-%d", w.id)
+	}
+	if w.id%4 == 1 {
+		w.cc = fmt.Sprintf("max-age=%d", 1000+w.id)
+	}
+}
+
 func (w *write) hdr() []string {
-	return []string{"X-Amz-Meta-Wid", strconv.Itoa(w.id), "Content-Type", w.ctype, "X-Amz-Checksum-Crc32", w.crc}
+	h := []string{"X-Amz-Meta-Wid", strconv.Itoa(w.id), "Content-Type", w.ctype, "X-Amz-Checksum-Crc32", w.crc}
+	if w.extra != "" {
+		h = append(h, "X-Amz-Meta-Extra", w.extra)
+	}
+	if w.cc != "" {
+		h = append(h, "Cache-Control", w.cc)
+	}
+	return h
 }
 
 // ---- atomicity monitor --------------------------------------------------------
@@ -134,7 +170,31 @@ func (ws *writes) judgeRead(r *s3c.Resp, head bool) readObs {
 	if we != nil {
 		etagW = we.id
 	}
-	ids := map[string]int{"etag": etagW, "meta": metaW, "ctype": ctW}
+	// metadata and content type name the write; everything else is compared by the body the write carries
+	repOf := func(id int) int {
+		ws.mu.Lock()
+		defer ws.mu.Unlock()
+		if w := ws.byID[id]; w != nil {
+			return w.rep
+		}
+		return id
+	}
+	if metaW != ctW {
+		parts = append(parts, fmt.Sprintf("metadata belongs to write %d but the content type to write %d", metaW, ctW))
+	} else {
+		ws.mu.Lock()
+		wm := ws.byID[metaW]
+		ws.mu.Unlock()
+		if wm != nil {
+			if got := r.Header.Get("X-Amz-Meta-Extra"); got != wm.extra {
+				parts = append(parts, fmt.Sprintf("write %d carries X-Amz-Meta-Extra %q, the read shows %q (an entry of another write)", metaW, wm.extra, got))
+			}
+			if got := r.Header.Get("Cache-Control"); got != wm.cc {
+				parts = append(parts, fmt.Sprintf("write %d carries Cache-Control %q, the read shows %q", metaW, wm.cc, got))
+			}
+		}
+	}
+	ids := map[string]int{"etag": etagW, "meta": repOf(metaW), "ctype": repOf(ctW)}
 	if ck := r.Header.Get("X-Amz-Checksum-Crc32"); ck != "" {
 		// only objects written with a checksum report one (copies and multipart objects may not)
 		ws.mu.Lock()
@@ -191,7 +251,7 @@ func (ws *writes) judgeRead(r *s3c.Resp, head bool) readObs {
 		o.Wid = -1
 		return o
 	}
-	o.Wid = first
+	o.Wid = metaW
 	return o
 }
 
@@ -845,6 +905,15 @@ func runStress(c *ev.Ctx, id string, sc stressCfg, seed int64) {
 					op.Out = opOut{Ack: resp.OK(), Unk: resp.Err != nil}
 				case x < 35:
 					w := ws.mk(r.Intn(3) == 0)
+					if r.Intn(4) == 0 {
+						// the body of an earlier write under a new identity (a re-upload of unchanged data with other attributes)
+						ws.mu.Lock()
+						of := ws.byID[1+r.Intn(ws.next)]
+						ws.mu.Unlock()
+						if of != nil && of.rep == of.id {
+							w = ws.mkTwin(of)
+						}
+					}
 					op.In = opIn{Kind: "put", W: w.id, Name: "PUT"}
 					op.Call = clk.now()
 					resp = cl.PutObject("stress", key, w.body, w.hdr()...)
@@ -1040,7 +1109,13 @@ func runLarge(c *ev.Ctx, id string, noOTmp bool, seed int64) {
 		return w
 	}
 	plain := func(w *write) s3c.H {
-		return s3c.H{{"X-Amz-Meta-Wid", strconv.Itoa(w.id)}, {"Content-Type", w.ctype}}
+		var h s3c.H
+		for i, kv := 0, w.hdr(); i+1 < len(kv); i += 2 {
+			if !strings.HasPrefix(kv[i], "X-Amz-Checksum") {
+				h = append(h, [2]string{kv[i], kv[i+1]})
+			}
+		}
+		return h
 	}
 	cfgName := fmt.Sprintf("L|otmp=%v", !noOTmp)
 	fails := map[string]func(key string) *s3c.Resp{
@@ -1074,6 +1149,37 @@ func runLarge(c *ev.Ctx, id string, noOTmp bool, seed int64) {
 		names = append(names, n)
 	}
 	sort.Strings(names)
+	// unchanged data under a new identity: the same body is uploaded again with other attributes (what a sync tool
+	// does after a metadata change); the read afterwards must be the second write alone - its metadata, content type,
+	// optional entries - and not carry anything that only the first write had
+	for k := 0; k < 8; k++ {
+		a := ws.mk(k%2 == 1)
+		key := fmt.Sprintf("twin-%d", k)
+		seq := []*write{a, ws.mkTwin(a), ws.mkTwin(a)}
+		for i, w := range seq {
+			pr := cl.PutObject("large", key, w.body, w.hdr()...)
+			c.Eval(1)
+			if !pr.OK() {
+				c.Violation("L:correct-upload-refused", id, map[string]any{"config": cfgName, "answer": pr.String(), "write": w.id})
+				break
+			}
+			for _, head := range []bool{false, true} {
+				var g *s3c.Resp
+				if head {
+					g = cl.HeadObject("large", key, ckMode...)
+				} else {
+					g = cl.GetObject("large", key, ckMode...)
+				}
+				ro := ws.judgeRead(g, head)
+				if ro.Wid != w.id {
+					c.Violation("L:read-after-reupload-of-unchanged-data-is-not-the-last-write", id, map[string]any{"config": cfgName, "key": key,
+						"writes_in_order": []int{seq[0].id, seq[1].id, seq[2].id}[:i+1], "read_says_write": ro.Wid, "explain": ro.Torn, "answer": g.String()})
+				} else if i > 0 {
+					c.Distinct(fmt.Sprintf("%s|twin-sequence|%d", cfgName, i))
+				}
+			}
+		}
+	}
 	keys := []string{"big-0", "big-1"}
 	rounds := c.Pick(5, 14)
 	for round := 0; round < rounds; round++ {
